@@ -25,7 +25,7 @@ def run(ctx, case):
 
 SUBS = [Sub("histories", run, kind="machine", machine=machine, budget=(160, 4000), shards=(4, 16), steps=(25, 50),
             rule='histories of successful put/remove/reopen operations; compactness of the parsed file and size delta after each')]
-SUBS.append(Sub("equal-size-scripts", run, kind="enum", enumerate=lambda tier: container.scripted_cases(), shards=(8, 16),
+SUBS.append(Sub("equal-size-scripts", run, kind="enum", enumerate=lambda tier: container.scripted_cases(duplicate_types=True), shards=(8, 16),
                 rule="24 orders of equally sized blocks of different types (8 bytes each) x table lengths {3,4,14} x 8 short scripts (remove first / middle, "
                      "same-size replace, reopen); finite, enumerated"))
 SUBS.append(Sub("fill-level-scripts", run, kind="enum", enumerate=lambda tier: container.fill_level_cases(), shards=(8, 16),
